@@ -21,6 +21,10 @@ inductive Value where
   | bool (b : Bool)
   | text (s : List Nat)
   | rat (n : Int) (d : Nat)
+  /-- a DOUBLE column value.  Such values are stored, compared and shown, never computed with: `k` is the order key
+      of the IEEE-754 bit pattern (the bits of a non-negative double; minus the bits without the sign of a negative
+      one), so that comparing keys as integers is comparing the doubles.  No floating-point operation is modelled. -/
+  | dbl (k : Int)
   deriving DecidableEq, Repr, Inhabited
 
 abbrev Row := List Value
@@ -28,7 +32,7 @@ abbrev Table := List Row
 
 /-- Declared column types of the fragment (INT = 32 bit, BIGINT = 64 bit). -/
 inductive Ty where
-  | int | bigint | bool | text
+  | int | bigint | bool | text | double
   deriving DecidableEq, Repr, Inhabited
 
 inductive Err where
@@ -120,7 +124,7 @@ def cmpText : List Nat → List Nat → Ordering
 
 /-- category of a non-NULL value (values of different categories are never compared by well-typed queries) -/
 def Value.rank : Value → Nat
-  | .bool _ => 0 | .int _ => 1 | .text _ => 2 | .rat _ _ => 3 | .null => 4
+  | .bool _ => 0 | .int _ => 1 | .text _ => 2 | .rat _ _ => 3 | .null => 4 | .dbl _ => 5
 
 /-- total order on non-NULL values; NULL is handled by the callers.
     (`rat` values are results of AVG and are never compared by the modelled grammar: they get a structural order.) -/
@@ -129,6 +133,7 @@ def Value.cmp : Value → Value → Ordering
   | .bool a, .bool b => cmpNat a.toNat b.toNat
   | .text a, .text b => cmpText a b
   | .rat a d, .rat b e => lexOrd (cmpInt a b) (cmpNat d e)
+  | .dbl a, .dbl b => cmpInt a b
   | a, b => cmpNat a.rank b.rank
 
 inductive CmpOp where
@@ -211,6 +216,11 @@ def arith (D : Defects) (op : ArithOp) : Value → Value → Except Err Value
 
 /-! ## Expressions -/
 
+/-- string functions of one argument -/
+inductive StrFn where
+  | upper | lower | length | ltrim | rtrim
+  deriving DecidableEq, Repr, Inhabited
+
 inductive Expr where
   | lit (v : Value)
   | col (i : Nat)
@@ -225,6 +235,14 @@ inductive Expr where
   | isNull (neg : Bool) (e : Expr)
   | between (neg : Bool) (e lo hi : Expr)
   | inList (neg : Bool) (e : Expr) (xs : List Expr)
+  /-- searched CASE: `parts` = [cond₁, result₁, …, condₖ, resultₖ, else] (`else` = NULL literal if absent) -/
+  | caseWhen (parts : List Expr)
+  /-- simple CASE `CASE x WHEN v₁ THEN r₁ … ELSE e END`: `parts` = [v₁, r₁, …, vₖ, rₖ, else] -/
+  | caseOf (x : Expr) (parts : List Expr)
+  /-- `UPPER(e)`, `LOWER(e)`, `LENGTH(e)`, `LTRIM(e)`, `RTRIM(e)` -/
+  | strFn (f : StrFn) (e : Expr)
+  /-- `a || b` -/
+  | concat (a b : Expr)
   deriving Repr, Inhabited
 
 /-- A NULL in boolean position is unknown; a non-boolean is a type error -/
@@ -251,13 +269,62 @@ def inShipped (x : Value) (ys : List Value) : Bool :=
     | .null, .null => true
     | _, _ => cmp3 .eq x y == some true)
 
+/-! ### string functions (texts are byte strings; letters are the ASCII letters) -/
+
+def upperByte (b : Nat) : Nat := if 97 ≤ b && b ≤ 122 then b - 32 else b
+
+def lowerByte (b : Nat) : Nat := if 65 ≤ b && b ≤ 90 then b + 32 else b
+
+/-- LTRIM: without the leading spaces -/
+def ltrimBytes (s : List Nat) : List Nat := s.dropWhile (· == 32)
+
+/-- RTRIM: without the trailing spaces -/
+def rtrimBytes (s : List Nat) : List Nat := (ltrimBytes s.reverse).reverse
+
+/-- LENGTH counts characters: the bytes of a UTF-8 text that are not continuation bytes -/
+def charCount (s : List Nat) : Nat := (s.filter (fun b => b < 128 || 192 ≤ b)).length
+
+def applyStrFn (f : StrFn) (s : List Nat) : Value :=
+  match f with
+  | .upper => .text (s.map upperByte)
+  | .lower => .text (s.map lowerByte)
+  | .length => .int (charCount s)
+  | .ltrim => .text (ltrimBytes s)
+  | .rtrim => .text (rtrimBytes s)
+
+/-- NULL in, NULL out; anything but a text is a type error -/
+def strFn1 (f : StrFn) : Value → Except Err Value
+  | .null => .ok .null
+  | .text s => .ok (applyStrFn f s)
+  | _ => .error .type
+
+/-- `a || b`: NULL if either side is NULL -/
+def concatV : Value → Value → Except Err Value
+  | .text a, .text b => .ok (.text (a ++ b))
+  | .null, .null | .null, .text _ | .text _, .null => .ok .null
+  | _, _ => .error .type
+
+def isNullLit : Expr → Bool
+  | .lit .null => true
+  | _ => false
+
+mutual
 /-- does the value of this expression have the 32-bit runtime kind (for unary minus)? -/
 def rtInt32 (tys : List Ty) : Expr → Bool
   | .lit (.int v) => fitsI32 v
   | .col i => tys.getD i .bigint == .int
   | .neg e => rtInt32 tys e
   | .pos e => rtInt32 tys e
+  | .caseWhen parts => rtInt32Results tys parts
+  | .caseOf _ parts => rtInt32Results tys parts
   | _ => false
+
+/-- all result branches of a CASE have the 32-bit kind (NULL branches do not matter) -/
+def rtInt32Results (tys : List Ty) : List Expr → Bool
+  | [] => true
+  | [e] => rtInt32 tys e || isNullLit e
+  | _ :: r :: rest => (rtInt32 tys r || isNullLit r) && rtInt32Results tys rest
+end
 
 mutual
 /-- Value of an expression on a row.  `tys` are the declared types of the row's columns. -/
@@ -321,6 +388,16 @@ def eval (D : Defects) (tys : List Ty) (row : Row) : Expr → Except Err Value
         | .ok none => .ok .null
         | .ok (some m) =>
           if neg && D.notLikeFalse then .ok (.bool false) else .ok (.bool (m != neg))
+  | .strFn f e =>
+    match eval D tys row e with
+    | .error x => .error x
+    | .ok v => strFn1 f v
+  | .concat a b =>
+    match eval D tys row a with
+    | .error x => .error x
+    | .ok va => match eval D tys row b with
+      | .error x => .error x
+      | .ok vb => concatV va vb
   | .isNull neg e =>
     match eval D tys row e with
     | .error x => .error x
@@ -348,6 +425,35 @@ def eval (D : Defects) (tys : List Ty) (row : Row) : Expr → Except Err Value
         else if D.inTwoValued then .ok (.bool (inShipped v vs != neg))
         else .ok (negIf neg (in3 v vs)).toValue
 
+  | .caseWhen parts => evalCaseWhen D tys row parts
+  | .caseOf x parts =>
+    match eval D tys row x with
+    | .error e => .error e
+    | .ok v => evalCaseOf D tys row v parts
+
+/-- searched CASE: the first condition that is TRUE selects its result; only that result is evaluated -/
+def evalCaseWhen (D : Defects) (tys : List Ty) (row : Row) : List Expr → Except Err Value
+  | [] => .ok .null
+  | [e] => eval D tys row e
+  | c :: r :: rest =>
+    match eval D tys row c with
+    | .error x => .error x
+    | .ok v => match asTV v with
+      | .error x => .error x
+      | .ok (some true) => eval D tys row r
+      | .ok _ => evalCaseWhen D tys row rest
+
+/-- simple CASE on the operand value `v`: the first WHEN value equal to it (never a NULL) selects its result -/
+def evalCaseOf (D : Defects) (tys : List Ty) (row : Row) (v : Value) : List Expr → Except Err Value
+  | [] => .ok .null
+  | [e] => eval D tys row e
+  | c :: r :: rest =>
+    match eval D tys row c with
+    | .error x => .error x
+    | .ok w => match cmp3 .eq v w with
+      | some true => eval D tys row r
+      | _ => evalCaseOf D tys row v rest
+
 def evalList (D : Defects) (tys : List Ty) (row : Row) : List Expr → Except Err (List Value)
   | [] => .ok []
   | e :: es => match eval D tys row e with
@@ -374,16 +480,43 @@ def wider : Ty → Ty → Ty
   | _, .int => .int
   | a, _ => a
 
-def inferTy (tys : List Ty) : Expr → Ty
-  | .lit (.int v) => if fitsI32 v then .int else .bigint
-  | .lit (.text _) => .text
-  | .lit (.bool _) => .bool
-  | .lit _ => .bool
-  | .col i => tys.getD i .bigint
-  | .neg e => inferTy tys e
-  | .pos e => inferTy tys e
-  | .arith _ a b => wider (inferTy tys a) (inferTy tys b)
-  | _ => .bool
+/-- NULL branches say nothing about the type of a CASE; numeric branches widen each other; otherwise the first
+    typed branch decides (as the binder does) -/
+def joinTy : Option Ty → Option Ty → Option Ty
+  | none, b => b
+  | a, none => a
+  | some .int, some .bigint => some .bigint
+  | some .bigint, some .int => some .bigint
+  | some a, some _ => some a
+
+mutual
+/-- static type of an expression as the binder infers it; `none` for an untyped NULL -/
+def inferTyO (tys : List Ty) : Expr → Option Ty
+  | .lit (.int v) => some (if fitsI32 v then .int else .bigint)
+  | .lit (.text _) => some .text
+  | .lit (.bool _) => some .bool
+  | .lit (.dbl _) => some .double
+  | .lit _ => none
+  | .col i => some (tys.getD i .bigint)
+  | .neg e => inferTyO tys e
+  | .pos e => inferTyO tys e
+  | .arith _ a b => match inferTyO tys a, inferTyO tys b with
+    | none, none => none
+    | ta, tb => some (wider (ta.getD .bool) (tb.getD .bool))
+  | .caseWhen parts => inferResults tys parts
+  | .caseOf _ parts => inferResults tys parts
+  | .strFn .length _ => some .int
+  | .strFn _ _ => some .text
+  | .concat _ _ => some .text
+  | _ => some .bool
+
+def inferResults (tys : List Ty) : List Expr → Option Ty
+  | [] => none
+  | [e] => inferTyO tys e
+  | _ :: r :: rest => joinTy (inferTyO tys r) (inferResults tys rest)
+end
+
+def inferTy (tys : List Ty) (e : Expr) : Ty := (inferTyO tys e).getD .bool
 
 /-- a produced value is stored with the declared / inferred type: a 64-bit integer that does not fit an INT
     column is a type error; so is a value of another category -/
@@ -400,6 +533,9 @@ def castTo (ty : Ty) : Value → Except Err Value
     | .text => .ok (.text s)
     | _ => .error .type
   | .rat n d => .ok (.rat n d)
+  | .dbl k => match ty with
+    | .double => .ok (.dbl k)
+    | _ => .error .type
 
 /-! ## Relational operators (pure parts: these are what the theorems are about) -/
 
@@ -531,6 +667,11 @@ def maxVal : List Value → Value
     | .null => v
     | m => if v.cmp m == .lt then m else v
 
+/-- the quotient `n / d` in lowest terms (so that equal averages are equal values) -/
+def ratNorm (n : Int) (d : Nat) : Value :=
+  let g := Nat.gcd n.natAbs d
+  if g = 0 then .rat n d else .rat (n / (g : Int)) (d / g)
+
 /-- an aggregate over the argument values of one group (`countStar` gets one value per row, ignored) -/
 def aggregate (D : Defects) (f : AggFn) (vs : List Value) : Except Err Value :=
   match f with
@@ -545,7 +686,7 @@ def aggregate (D : Defects) (f : AggFn) (vs : List Value) : Except Err Value :=
     | [] => .ok .null
     | ws => match sumInts D ws with
       | .error x => .error x
-      | .ok s => .ok (.rat s ws.length)
+      | .ok s => .ok (ratNorm s ws.length)
   | .min => .ok (minVal (nonNull vs))
   | .max => .ok (maxVal (nonNull vs))
 
@@ -554,11 +695,15 @@ def aggregate (D : Defects) (f : AggFn) (vs : List Value) : Except Err Value :=
 inductive From where
   | table (t : Nat)
   | join (k : JoinKind) (l r : From) (on : Option Expr)
+  /-- derived table `(SELECT items FROM inner [WHERE w]) AS r`: the select-project form of a query in FROM -/
+  | derived (inner : From) (w : Option Expr) (items : List Expr)
   deriving Repr, Inhabited
 
 structure Agg where
   fn : AggFn
   arg : Expr        -- ignored for `countStar`
+  /-- `AGG(DISTINCT arg)`: every distinct non-NULL value counts once -/
+  distinct : Bool := false
   deriving Repr, Inhabited
 
 structure Select where
@@ -568,12 +713,15 @@ structure Select where
   /-- aggregate query iff `aggs ≠ []`; its output is the group keys followed by the aggregates -/
   groupBy : List Expr
   aggs : List Agg
-  /-- projection of a non-aggregate query; `none` = `*` -/
+  /-- projection; `none` = `*`.  In an aggregate query (GROUP BY or aggregates present) the items — like HAVING —
+      are expressions over the *aggregate row*: the group keys followed by the aggregates -/
   items : Option (List Expr)
   /-- ORDER BY: (position in the output, ascending?) -/
   orderBy : List (Nat × Bool)
   limit : Option Nat
   offset : Option Nat
+  /-- HAVING, over the aggregate row (aggregate queries only) -/
+  having : Option Expr := none
   deriving Repr, Inhabited
 
 structure TableDef where
@@ -586,6 +734,7 @@ abbrev Db := List TableDef
 def From.tys (db : Db) : From → List Ty
   | .table t => (db.getD t default).tys
   | .join _ l r _ => l.tys db ++ r.tys db
+  | .derived f _ items => items.map (inferTy (f.tys db))
 
 /-- is the expression a conjunction of `column = column` (the planner's equi-join test)? -/
 def isEquiCond : Expr → Bool
@@ -604,6 +753,18 @@ def equiPairs : Expr → List (Nat × Nat)
   | .cmp .eq (.col l) (.col r) => [(l, r)]
   | .and a b => equiPairs a ++ equiPairs b
   | _ => []
+
+/-- evaluate the projection of one row and cast every item to its inferred type -/
+def projectRow (D : Defects) (tys : List Ty) (items : List Expr) (row : Row) : Except Err Row :=
+  mapE (fun e => match eval D tys row e with
+    | .error x => .error x
+    | .ok v => castTo (inferTy tys e) v) items
+
+/-- WHERE step -/
+def applyWhere (D : Defects) (tys : List Ty) (w : Option Expr) (rows : List Row) : Except Err (List Row) :=
+  match w with
+  | none => .ok rows
+  | some e => filterRows (evalPred D tys e) rows
 
 def evalFrom (D : Defects) (db : Db) : From → Except Err (List Row)
   | .table t => match db[t]? with
@@ -652,12 +813,21 @@ def evalFrom (D : Defects) (db : Db) : From → Except Err (List Row)
             .ok (joinPure (if k == .right then .inner else .left) m' lw rw lrows rrows)
           else
             .ok (joinPure k m' lw rw lrows rrows)
-
-/-- evaluate the projection of one row and cast every item to its inferred type -/
-def projectRow (D : Defects) (tys : List Ty) (items : List Expr) (row : Row) : Except Err Row :=
-  mapE (fun e => match eval D tys row e with
+  | .derived f w items =>
+    match evalFrom D db f with
     | .error x => .error x
-    | .ok v => castTo (inferTy tys e) v) items
+    | .ok rows => match applyWhere D (f.tys db) w rows with
+      | .error x => .error x
+      | .ok kept => mapE (projectRow D (f.tys db) items) kept
+
+/-- distinct values, first occurrences -/
+def dedupV : List Value → List Value
+  | [] => []
+  | v :: vs => v :: (dedupV vs).filter (· != v)
+
+/-- the argument values an aggregate sees: all of them, or the distinct non-NULL ones -/
+def aggInput (a : Agg) (vs : List Value) : List Value :=
+  if a.distinct && a.fn != .countStar then dedupV (nonNull vs) else vs
 
 def aggOutTy (tys : List Ty) (a : Agg) : Option Ty :=
   match a.fn with
@@ -675,7 +845,7 @@ def aggRow (D : Defects) (tys : List Ty) (keys : List Expr) (aggs : List Agg)
             | .countStar => .ok Value.null
             | _ => eval D tys row a.arg) g.2 with
         | .error x => .error x
-        | .ok vs => match aggregate D a.fn vs with
+        | .ok vs => match aggregate D a.fn (aggInput a vs) with
           | .error x => .error x
           | .ok v => match aggOutTy tys a with
             | some ty => castTo ty v
@@ -684,12 +854,6 @@ def aggRow (D : Defects) (tys : List Ty) (keys : List Expr) (aggs : List Agg)
     | .ok as => .ok (ks ++ as)
 
 def keyedBy (pos : List Nat) (row : Row) : List Value × Row := (pos.map (fun i => row.getD i .null), row)
-
-/-- WHERE step -/
-def applyWhere (D : Defects) (tys : List Ty) (w : Option Expr) (rows : List Row) : Except Err (List Row) :=
-  match w with
-  | none => .ok rows
-  | some e => filterRows (evalPred D tys e) rows
 
 /-- pair every row with its group key -/
 def keyRows (D : Defects) (tys : List Ty) (keys : List Expr) (rows : List Row) :
@@ -704,16 +868,37 @@ def groupsOf (noKeys : Bool) (keyed : List (List Value × Row)) : List (List Val
     (fun g => (g.1, g.2.map (fun (p : List Value × Row) => p.2)))
   if noKeys && groups.isEmpty then [([], [])] else groups
 
-/-- projection or aggregation step -/
+/-- is this an aggregate query? -/
+def Select.isAgg (q : Select) : Bool := !q.aggs.isEmpty || !q.groupBy.isEmpty
+
+/-- column types of the aggregate row: the keys, then COUNT → BIGINT, SUM / AVG → (untyped number, here BIGINT),
+    MIN / MAX → type of the argument -/
+def aggTys (tys : List Ty) (keys : List Expr) (aggs : List Agg) : List Ty :=
+  keys.map (inferTy tys) ++ aggs.map (fun a => match a.fn with
+    | .min | .max => inferTy tys a.arg
+    | _ => .bigint)
+
+/-- projection of rows (`none` = `*`) -/
+def projectAll (D : Defects) (tys : List Ty) (items : Option (List Expr)) (rows : List Row) : Except Err (List Row) :=
+  match items with
+  | none => .ok rows
+  | some items => mapE (projectRow D tys items) rows
+
+/-- projection or aggregation step.  An aggregate query groups, computes the aggregate row of every group (keys,
+    then aggregates), keeps the groups on which HAVING is TRUE, and projects the select list over the aggregate row. -/
 def produce (D : Defects) (tys : List Ty) (q : Select) (rows : List Row) : Except Err (List Row) :=
-  if q.aggs.isEmpty then
-    match q.items with
-    | none => .ok rows
-    | some items => mapE (projectRow D tys items) rows
+  if !q.isAgg then projectAll D tys q.items rows
   else
     match keyRows D tys q.groupBy rows with
     | .error x => .error x
-    | .ok keyed => mapE (aggRow D tys q.groupBy q.aggs) (groupsOf q.groupBy.isEmpty keyed)
+    | .ok keyed =>
+      match mapE (aggRow D tys q.groupBy q.aggs) (groupsOf q.groupBy.isEmpty keyed) with
+      | .error x => .error x
+      | .ok arows =>
+        let atys := aggTys tys q.groupBy q.aggs
+        match applyWhere D atys q.having arows with
+        | .error x => .error x
+        | .ok kept => projectAll D atys q.items kept
 
 /-- ORDER BY (on output positions), DISTINCT, OFFSET/LIMIT -/
 def finish (nullsFirst : Bool) (q : Select) (rows : List Row) : List Row :=
@@ -822,10 +1007,90 @@ def execStmt (D : Defects) (nullsFirst : Bool) (db : Db) : Stmt → Db × Outcom
       | .error x => (db, .error x)
       | .ok (rows', n) => (setTable db t rows', .affected n)
 
+/-! ## Static typing of comparisons
+
+SQL is statically typed: comparing a number with a text (or a boolean) is an error of the statement, whatever the
+data.  (The engine finds it when the comparison meets two non-NULL values; generated cases always do.) -/
+
+/-- category of a type: numbers, texts, booleans -/
+def Ty.cat : Ty → Nat
+  | .int | .bigint | .double => 0
+  | .text => 1
+  | .bool => 2
+
+/-- both sides have a known type and the categories differ.  `unk` = columns without a type (a group key or a
+    MIN / MAX over an untyped NULL): they clash with nothing -/
+def catClash (tys : List Ty) (unk : List Nat) (a b : Expr) : Bool :=
+  let isUnk : Expr → Bool := fun e => match e with | .col i => unk.contains i | _ => false
+  if isUnk a || isUnk b then false else
+  match inferTyO tys a, inferTyO tys b with
+  | some x, some y => x.cat != y.cat
+  | _, _ => false
+
+mutual
+/-- does the expression contain a comparison (=, <, BETWEEN, IN, simple CASE) across categories? -/
+def illTyped (tys : List Ty) (unk : List Nat) : Expr → Bool
+  | .lit _ | .col _ => false
+  | .not e | .neg e | .pos e | .isNull _ e | .strFn _ e => illTyped tys unk e
+  | .and a b | .or a b | .arith _ a b | .like _ a b | .concat a b => illTyped tys unk a || illTyped tys unk b
+  | .cmp _ a b => catClash tys unk a b || illTyped tys unk a || illTyped tys unk b
+  | .between _ e lo hi =>
+    catClash tys unk e lo || catClash tys unk e hi || illTyped tys unk e || illTyped tys unk lo || illTyped tys unk hi
+  | .inList _ e xs => illTyped tys unk e || clashAny tys unk e xs || illTypedList tys unk xs
+  | .caseWhen parts => illTypedList tys unk parts
+  | .caseOf x parts => illTyped tys unk x || clashWhens tys unk x parts || illTypedList tys unk parts
+def illTypedList (tys : List Ty) (unk : List Nat) : List Expr → Bool
+  | [] => false
+  | e :: es => illTyped tys unk e || illTypedList tys unk es
+def clashAny (tys : List Ty) (unk : List Nat) (e : Expr) : List Expr → Bool
+  | [] => false
+  | x :: xs => catClash tys unk e x || clashAny tys unk e xs
+/-- the WHEN values of a simple CASE (every other element of `parts`, not the last) -/
+def clashWhens (tys : List Ty) (unk : List Nat) (x : Expr) : List Expr → Bool
+  | c :: _ :: rest => catClash tys unk x c || clashWhens tys unk x rest
+  | _ => false
+end
+
+def illTypedOpt (tys : List Ty) (unk : List Nat) : Option Expr → Bool
+  | none => false
+  | some e => illTyped tys unk e
+
+def From.illTyped (db : Db) : From → Bool
+  | .table _ => false
+  | .join _ l r on => l.illTyped db || r.illTyped db || illTypedOpt (l.tys db ++ r.tys db) [] on
+  | .derived f w items =>
+    f.illTyped db || illTypedOpt (f.tys db) [] w || illTypedList (f.tys db) [] items
+
+/-- positions of the aggregate row without a type: keys and MIN / MAX arguments that are untyped NULLs -/
+def aggUnknown (tys : List Ty) (keys : List Expr) (aggs : List Agg) : List Nat :=
+  let ks := (List.range keys.length).filter (fun i => (inferTyO tys (keys.getD i (.lit .null))).isNone)
+  let as := (List.range aggs.length).filter (fun j =>
+    let a := aggs.getD j default
+    (a.fn == .min || a.fn == .max) && (inferTyO tys a.arg).isNone)
+  ks ++ as.map (· + keys.length)
+
+def stmtIllTyped (db : Db) : Stmt → Bool
+  | .select q =>
+    let tys := q.from_.tys db
+    let atys := if q.isAgg then aggTys tys q.groupBy q.aggs else tys
+    let unk := if q.isAgg then aggUnknown tys q.groupBy q.aggs else []
+    q.from_.illTyped db || illTypedOpt tys [] q.where_ || illTypedList tys [] q.groupBy
+      || illTypedList tys [] (q.aggs.map (·.arg)) || illTypedOpt atys unk q.having
+      || (match q.items with | none => false | some items => illTypedList atys unk items)
+  | .insert _ _ => false
+  | .update t sets w =>
+    let tys := (db.getD t default).tys
+    illTypedOpt tys [] w || illTypedList tys [] (sets.map (·.2))
+  | .delete t w => illTypedOpt (db.getD t default).tys [] w
+
+/-- a statement with a cross-category comparison is rejected with a type error and changes nothing -/
+def execStmtTyped (D : Defects) (nullsFirst : Bool) (db : Db) (s : Stmt) : Db × Outcome :=
+  if stmtIllTyped db s then (db, .error .type) else execStmt D nullsFirst db s
+
 def execAll (D : Defects) (nullsFirst : Bool) : Db → List Stmt → List Outcome
   | _, [] => []
   | db, s :: ss =>
-    let (db', o) := execStmt D nullsFirst db s
+    let (db', o) := execStmtTyped D nullsFirst db s
     o :: execAll D nullsFirst db' ss
 
 end AxVerif.Sql
